@@ -44,6 +44,8 @@ type Op struct {
 	RW  int64  `json:",omitempty"`
 	V   *RV    `json:",omitempty"`
 	Sz  int    `json:",omitempty"` // marshalled size, filled when run
+	Ap  bool   `json:",omitempty"` // fault ops: the write was applied although the call returned an error; crashinflush: the batch was written
+	Stg int    `json:",omitempty"` // saveweightf: 0 = the leader-weight write fails, 1 = the region-weight write
 	Par int    `json:",omitempty"` // flush only: run it in its own goroutine and overlap the next Par ops with it
 }
 
@@ -120,6 +122,20 @@ func (o Op) coq() string {
 			return "OBudget None"
 		}
 		return "OBudget (Some " + coqfmt.Z(o.P) + ")"
+	case "savestoref":
+		return fmt.Sprintf("OSaveStoreF %s %s %s", coqfmt.ZU(o.ID), coqfmt.Z(o.P), coqfmt.Bool(o.Ap))
+	case "delstoref":
+		return fmt.Sprintf("ODeleteStoreF %s %s", coqfmt.ZU(o.ID), coqfmt.Bool(o.Ap))
+	case "saveweightf":
+		return fmt.Sprintf("OSaveWeightF %s %s %s %d%%nat %s", coqfmt.ZU(o.ID), coqfmt.Z(o.LW), coqfmt.Z(o.RW), o.Stg, coqfmt.Bool(o.Ap))
+	case "saveregionf":
+		return fmt.Sprintf("OSaveRegionF %s (%s) %s", coqfmt.ZU(o.ID), coqRV(o.V.region(o.ID), o.Sz), coqfmt.Bool(o.Ap))
+	case "delregionf":
+		return fmt.Sprintf("ODeleteRegionF %s %s", coqfmt.ZU(o.ID), coqfmt.Bool(o.Ap))
+	case "tick":
+		return "OTick"
+	case "crashinflush":
+		return "OCrashInFlush " + coqfmt.Bool(o.Ap)
 	case "loadregions":
 		return "OLoadRegions"
 	case "loadonce":
@@ -136,6 +152,39 @@ type budgetKV struct {
 	budget int64 // < 0: none
 	calls  int
 	failed int
+	// write faults: the armed-th next Save/Remove returns an error, after having been applied or not
+	armed int
+	after bool
+}
+
+func (b *budgetKV) fault(apply func() error) (bool, error) {
+	if b.armed == 0 {
+		return false, nil
+	}
+	b.armed--
+	if b.armed > 0 {
+		return false, nil
+	}
+	if b.after {
+		if err := apply(); err != nil {
+			return true, err
+		}
+	}
+	return true, fmt.Errorf("injected write fault (applied: %v)", b.after)
+}
+
+func (b *budgetKV) Save(k, v string) error {
+	if hit, err := b.fault(func() error { return b.Base.Save(k, v) }); hit {
+		return err
+	}
+	return b.Base.Save(k, v)
+}
+
+func (b *budgetKV) Remove(k string) error {
+	if hit, err := b.fault(func() error { return b.Base.Remove(k) }); hit {
+		return err
+	}
+	return b.Base.Remove(k)
 }
 
 func (b *budgetKV) LoadRange(key, endKey string, limit int) ([]string, []string, error) {
@@ -289,6 +338,44 @@ func (w *world) exec(o *Op) string {
 		w.openRS()
 	case "budget":
 		w.base.budget = o.P
+	case "savestoref", "delstoref", "saveweightf", "saveregionf", "delregionf":
+		w.base.armed, w.base.after = 1, o.Ap
+		var err error
+		switch o.K {
+		case "savestoref":
+			err = w.st.SaveStore(&metapb.Store{Id: o.ID, Address: "p" + strconv.FormatInt(o.P, 10)})
+		case "delstoref":
+			w.base.armed = 3 // DeleteStore removes the two weight keys first; the record itself is its third Remove
+			err = w.st.DeleteStore(&metapb.Store{Id: o.ID})
+		case "saveweightf":
+			w.base.armed = 1 + o.Stg
+			err = w.st.SaveStoreWeight(o.ID, float64(o.LW)/1000, float64(o.RW)/1000)
+		case "saveregionf":
+			r := o.V.region(o.ID)
+			o.Sz = proto.Size(r)
+			err = w.st.SaveRegion(r)
+		case "delregionf":
+			err = w.st.DeleteRegion(&metapb.Region{Id: o.ID})
+		}
+		w.base.armed = 0 // region-storage mode: the call did not touch Storage.Base
+		if err != nil {
+			return "BErr"
+		}
+		return "BUnit"
+	case "tick":
+		// the real timed flush: dirtyFlushTick = 1 s, 3 s after the last save
+		time.Sleep(4400 * time.Millisecond)
+	case "crashinflush":
+		if o.Ap {
+			if err := w.st.Flush(); err != nil {
+				panic(err)
+			}
+		}
+		w.cancel()
+		if err := w.rs.LeveldbKV.Close(); err != nil {
+			panic(err)
+		}
+		w.openRS()
 	case "loadregions", "loadonce":
 		var xs []string
 		called := false
@@ -375,7 +462,7 @@ func runCase(c Case) Case {
 	out := Case{Backend: c.Backend}
 	for i := 0; i < len(c.Ops); i++ {
 		o := c.Ops[i]
-		if o.K == "crash" || o.K == "reopen" {
+		if o.K == "crash" || o.K == "reopen" || o.K == "crashinflush" {
 			w.resetLoaded()
 		}
 		if o.K == "flush" && o.Par > 0 {
@@ -475,8 +562,18 @@ func genStores(r *rng.R, k int) Case {
 	}
 	n := counts[k%len(counts)]
 	ids := genIDs(r, n)
+	faulty := r.Pct(40)
 	for _, id := range ids {
+		if faulty && r.Pct(8) {
+			c.Ops = append(c.Ops, Op{K: "savestoref", ID: id, P: int64(5000 + r.Intn(1000)), Ap: r.Bool()})
+		}
 		c.Ops = append(c.Ops, Op{K: "savestore", ID: id, P: int64(r.Intn(1000))})
+		if faulty && r.Pct(6) {
+			c.Ops = append(c.Ops, Op{K: []string{"savestoref", "delstoref"}[r.Intn(2)], ID: id, P: int64(7000 + r.Intn(1000)), Ap: r.Bool()})
+		}
+		if faulty && r.Pct(6) {
+			c.Ops = append(c.Ops, Op{K: "saveweightf", ID: id, LW: int64(r.Intn(5000)), RW: int64(r.Intn(5000)), Stg: r.Intn(2), Ap: r.Bool()})
+		}
 		if r.Pct(30) {
 			c.Ops = append(c.Ops, Op{K: "saveweight", ID: id, LW: int64(r.Intn(5000)), RW: int64(r.Intn(5000))})
 		}
@@ -545,6 +642,15 @@ func genRegions(r *rng.R, k int) Case {
 		}
 		c.Ops = append(c.Ops, Op{K: "saveregion", ID: id, V: v})
 		saved = append(saved, id)
+		if !rsMode && !overlap && r.Pct(4) {
+			if r.Bool() {
+				v2 := *v
+				v2.ConfVer += 20
+				c.Ops = append(c.Ops, Op{K: "saveregionf", ID: id, V: &v2, Ap: r.Bool()})
+			} else {
+				c.Ops = append(c.Ops, Op{K: "delregionf", ID: id, Ap: r.Bool()})
+			}
+		}
 		if r.Pct(6) && len(saved) > 0 {
 			c.Ops = append(c.Ops, Op{K: "delregion", ID: saved[r.Intn(len(saved))]})
 		}
@@ -659,8 +765,20 @@ func fixedCases() []Case {
 		{K: "flush"}, {K: "saveregion", ID: 4, V: v1b}, {K: "delregion", ID: 4}, {K: "reopen"}, {K: "loadregions"}}}
 	pruneBoth := Case{Backend: "mem", Ops: []Op{{K: "switch", P: 1}, {K: "saveregion", ID: 1, V: v1}, {K: "saveregion", ID: 2, V: v2},
 		{K: "flush"}, {K: "saveregion", ID: 1, V: v1}, {K: "loadcache"}, {K: "flush"}, {K: "loadregions"}}}
+	// the real timed background flush (no explicit Flush), then a crash: the saves are durable
+	tick := Case{Backend: "mem", Ops: []Op{{K: "switch", P: 1}, {K: "saveregion", ID: 3, V: v1}, {K: "saveregion", ID: 8, V: &RV{Start: 50, End: 60, ConfVer: 1, Version: 1}},
+		{K: "tick"}, {K: "crash"}, {K: "loadregions"}}}
+	// a crash inside a flush: all of the batch or nothing of it
+	cif := func(written bool) Case {
+		return Case{Backend: "mem", Ops: []Op{{K: "switch", P: 1}, {K: "saveregion", ID: 3, V: v1}, {K: "flush"}, {K: "saveregion", ID: 3, V: v1b},
+			{K: "saveregion", ID: 8, V: &RV{Start: 50, End: 60, ConfVer: 1, Version: 1}}, {K: "crashinflush", Ap: written}, {K: "loadregions"}}}
+	}
+	// errored writes on Storage.Base, applied or not
+	faults := Case{Backend: "etcd", Ops: []Op{{K: "savestore", ID: 1, P: 1}, {K: "savestoref", ID: 1, P: 2, Ap: true}, {K: "savestoref", ID: 2, P: 3, Ap: false},
+		{K: "saveweightf", ID: 1, LW: 2000, RW: 3000, Stg: 1, Ap: false}, {K: "loadstores"}, {K: "delstoref", ID: 1, Ap: true}, {K: "loadstores"},
+		{K: "saveregion", ID: 5, V: v1}, {K: "saveregionf", ID: 5, V: v1b, Ap: true}, {K: "delregionf", ID: 5, Ap: false}, {K: "loadregions"}}}
 	return []Case{
-		wrap, delBoth, pruneBoth, raceCase(true), raceCase(false), raceCase(true), raceCase(false),
+		wrap, delBoth, pruneBoth, tick, cif(true), cif(false), faults, raceCase(true), raceCase(false), raceCase(true), raceCase(false),
 		// S9 on the stores namespace and on the regions namespace
 		{Backend: "mem", Ops: []Op{{K: "savestore", ID: 1, P: 1}, {K: "savestore", ID: top, P: 2}, {K: "loadstores"}}},
 		{Backend: "mem", Ops: []Op{{K: "saveregion", ID: 1, V: one}, {K: "saveregion", ID: top, V: two}, {K: "loadregions"}}},
@@ -822,6 +940,7 @@ func checkGo(R *res.Result, c Case) {
 	deleted := map[uint64]bool{}  // id -> its save was still unflushed when it was deleted
 	isDeleted := map[uint64]bool{}
 	pending := map[uint64]bool{} // region-storage mode: saved since the last explicit flush
+	unsure := map[uint64]bool{}  // an errored write touched this id
 	rs, dirty, known := false, false, true
 	for i, o := range c.Ops {
 		ob := c.Obs[i]
@@ -838,6 +957,23 @@ func checkGo(R *res.Result, c Case) {
 				dirty = true
 				pending[o.ID] = true
 			}
+		case "saveregionf", "delregionf":
+			if ob == "BErr" { // outcome unknown: this id is no longer judged here (the Coq monitor resolves it at the next load)
+				unsure[o.ID] = true
+			} else if o.K == "saveregionf" {
+				wantRegions[o.ID] = true
+				delete(isDeleted, o.ID)
+			} else {
+				delete(wantRegions, o.ID)
+				isDeleted[o.ID] = true
+				deleted[o.ID] = pending[o.ID]
+			}
+		case "tick":
+			dirty = false
+			pending = map[uint64]bool{}
+		case "crashinflush":
+			dirty, known = false, false
+			pending = map[uint64]bool{}
 		case "delregion":
 			delete(wantRegions, o.ID)
 			isDeleted[o.ID] = true
@@ -882,7 +1018,7 @@ func checkGo(R *res.Result, c Case) {
 				R.Violate("C17:load:max-id-never-loaded", "a region with id 2^64-1 was saved and not deleted; the load did not return it", slim(c))
 			}
 			for id := range got {
-				if !wantRegions[id] && isDeleted[id] {
+				if !wantRegions[id] && isDeleted[id] && !unsure[id] {
 					if deleted[id] {
 						R.Violate("C17:region-storage:deleted-region-still-loaded",
 							fmt.Sprintf("region storage: region %d was saved (buffered), deleted, then Flush returned; the load still returns it", id), slim(c))
